@@ -377,7 +377,7 @@ func (p *pather) path1(v ssa.Value, d int) string {
 	case *ssa.Range:
 		return "range(" + p.path(x.X, d) + ")"
 	case *ssa.Select:
-		return "select"
+		return "select:" + x.Name()
 	}
 	return fmt.Sprintf("?%T", v)
 }
@@ -576,7 +576,9 @@ func reach(fn *ssa.Function, from ssa.Instruction, isTarget func(ssa.Instruction
 	}
 	witness := func(b int) []int {
 		var w []int
-		for x := b; ; {
+		seen := map[int]bool{}
+		for x := b; !seen[x]; {
+			seen[x] = true
 			w = append([]int{x}, w...)
 			p, ok := parent[x]
 			if !ok {
